@@ -43,6 +43,24 @@ CheckEvent(e, C, i) ==
        /\ ("c02" \in Check => G!CheckRanges(e, C, i))
        /\ ("c03" \in Check => G!CheckGeometry(e, C, i))
 
+\* C23: a search / stream event / listing made for a context.  Every repository named anywhere
+\* in the reply must be visible to that context and live; file matches must be exactly the
+\* specification's answer under that context's visibility.
+CheckTenant(e, C, i) ==
+  LET Cw == C @@ [who |-> e.who]
+      visNames == {C.repos[k].name : k \in {k \in 1..Len(C.repos) : S!VisibleTo(e.who, C.repos[k]) /\ ~C.repos[k].tomb}}
+      visIds == {C.repos[k].id : k \in {k \in 1..Len(C.repos) : S!VisibleTo(e.who, C.repos[k]) /\ ~C.repos[k].tomb}}
+      leakedNames == {e.names[k].name : k \in {k \in 1..Len(e.names) : e.names[k].name \notin visNames}}
+      leakedIds == SeqToSet(e.ids) \ visIds
+      leakChannels == {e.names[k].channel : k \in {k \in 1..Len(e.names) : e.names[k].name \notin visNames}}
+  IN IF e.outcome # "ok" THEN Reject(i, "c23:outcome:" \o e.outcome, [outcome |-> "ok"])
+     ELSE /\ (leakedNames # {} => Reject(i, "c23:leak:name", [names |-> leakedNames, channels |-> leakChannels]))
+          /\ (leakedIds # {} => Reject(i, "c23:leak:id", [ids |-> leakedIds]))
+          /\ (e.op = "search" =>
+                LET exp == S!Answer(e.q, Cw, e.kind, e.shard)
+                    got == {e.files[k].doc : k \in 1..Len(e.files)}
+                IN got # exp => Reject(i, "c23:files", [missing |-> exp \ got, extra |-> got \ exp]))
+
 \* Every event is evaluated in an ASSUME, i.e. at constant level after TLC has processed the
 \* constant definitions: TLC caches LET definitions only outside actions (measured: 100x), and
 \* the oracle relies on that.  The state machine below only reports that the whole trace was
@@ -61,6 +79,7 @@ VerdictAt(i) == LET e == Trace[i]
                                                /\ RL!CheckDisplay(e, Trace[i - e.back], i)
                                                /\ (e.outcome = "ok" => G!CheckGeometry(e, C, i)))
                      [] e.ev = "rank"    -> ("c29" \in Check => RL!CheckRank(e, C, i))
+                     [] e.ev = "tenant"  -> ("c23" \in Check => CheckTenant(e, C, i))
                      [] OTHER -> TRUE
 ASSUME \A i \in 1..Len(Trace) : VerdictAt(i)
 
